@@ -1,5 +1,5 @@
 -------------------------- MODULE Trace_OffsetValues --------------------------
-EXTENDS Integers, Sequences, TLC, Json, IOUtils, OffsetValues, ZoneTimeline
+EXTENDS Integers, Sequences, TLC, Json, IOUtils, OffsetValues, ZoneTimeline, Calendars
 VARIABLES l
 Events == JsonDeserialize(IOEnv.TRACE_FILE)
 Has(e, f) == f \in DOMAIN e
@@ -63,6 +63,13 @@ Step(e) ==
                /\ Check(Consistent(e.res) /\ e.res.off = e.iv.wall /\ e.res.cal = e.cal /\ e.res_zone = e.zone,
                         "zoned_offset_is_the_zone_offset_at_its_instant")
                /\ Check(Same(e.plus_zero, Val(e.res)), "adding_nothing_changes_nothing"))
+    [] e.op = "ymd" ->
+         \* the calendar fields of a value made from (instant, offset, calendar): they name the local day instant + offset in that
+         \* calendar, by the calendar's arithmetic (Calendars.tla) - whatever years were converted before
+         /\ Check(~Has(e, "exc"), "construction_local_is_instant_plus_offset_must_not_raise")
+         /\ (Has(e, "y") /\ e.cal \in ArithmeticIds /\ ~(e.cal = "Persian Arithmetic" /\ e.y < 476) /\ e.y >= MinYear(e.cal) /\ e.y <= MaxYear(e.cal) =>
+               Check(ValidYMD(e.cal, e.y, e.m, e.d) /\ DayOf(e.cal, e.y, e.m, e.d) = Add3(e.inst, OfSeconds(e.off))[1]
+                     /\ e.back_inst = e.inst, "calendar_fields_name_the_local_day_in_that_calendar"))
     [] e.op = "accessors" ->
          /\ Check(~Has(e, "exc"), "accessors_must_not_raise")
          /\ Check(e.acc = e.loc, "properties_read_the_local_date_time")
